@@ -1029,6 +1029,49 @@ func doVarInput(req *Req) (resp Resp) {
 }
 
 func doExprInput(req *Req) (resp Resp) {
+	if req.Reps > 1 {
+		seen := map[string]int{}
+		order := []string{}
+		var first Resp
+		for i := 0; i < req.Reps; i++ {
+			r := exprInputOnce(req)
+			o := r.Kind
+			if r.Err != nil {
+				o += "|" + r.Err.Msg
+			}
+			for _, k := range SortedKeys(r.Map) {
+				o += "|" + k + "=" + r.Map[k].String()
+			}
+			if _, ok := seen[o]; !ok {
+				order = append(order, o)
+			}
+			seen[o]++
+			if i == 0 {
+				first = r
+			}
+		}
+		first.RepDistinct = len(seen)
+		if len(order) > 1 {
+			for _, o := range order {
+				first.RepOutcomes = append(first.RepOutcomes, fmt.Sprintf("%dx %s", seen[o], o))
+			}
+		}
+		cm := map[string]int{"a": 1, "b": 2, "c": 3, "d": 4, "e": 5, "f": 6}
+		orders := map[string]bool{}
+		for i := 0; i < req.Reps; i++ {
+			s := ""
+			for k := range cm {
+				s += k
+			}
+			orders[s] = true
+		}
+		first.CanaryOrders = len(orders)
+		return first
+	}
+	return exprInputOnce(req)
+}
+
+func exprInputOnce(req *Req) (resp Resp) {
 	defer func() {
 		if p := recover(); p != nil {
 			resp = Resp{Kind: "panic", Panic: fmt.Sprintf("%v\n%s", p, trimStack(debug.Stack()))}
